@@ -33,7 +33,8 @@ Definition kstep (s : kstate) (q now : Z) : kstate * resp :=
   let ok := allow_at <=? now in
   let cur := if ok then new else tat in
   let ttl := Z.max (cur - now) 0 + retention in
-  (if ok then Some (new, now + ttl) else s,
+  (* the store is written only for an admitted request of positive quantity *)
+  (if ok && (0 <? q) then Some (new, now + ttl) else s,
    {| allowed := ok; limit := B; remaining := Z.max ((now + T - cur) / E) 0; reset_after := ttl;
       retry_after := if ok then 0 else Z.max (allow_at - now) 0 |}).
 
